@@ -6,4 +6,4 @@ CONSTANTS
   Predict = FALSE
   MaxMut = 0
   Sugars = {"go", "echo", "script", "full"}
-INVARIANTS Export Terminates StoreOK Predicted
+INVARIANTS Export Terminates StoreOK Predicted WellTypedInv
